@@ -14,8 +14,9 @@ pub fn text_of(j: &J) -> String {
 /// Parse with the public parser AND compile with Program::compile; both must agree on accept / reject.
 pub fn parse_outcome(src: &str) -> J {
     let owned = src.to_string();
-    // parsing, compiling AND rendering the errors, under a panic guard and a watchdog
-    let r = run::watchdog(move || {
+    // parsing, compiling AND rendering the errors, under a panic guard and the monitor
+    run::arm("compile", run::WATCHDOG_SECS, src);
+    let r = Some({
         catch_unwind(AssertUnwindSafe(|| {
             let a = cel_parser::Parser::new().parse(&owned);
             let p = cel_interpreter::Program::compile(&owned);
@@ -40,6 +41,7 @@ pub fn parse_outcome(src: &str) -> J {
             }
         }))
     });
+    run::disarm();
     match r {
         None => json!({"k": "timeout", "secs": run::WATCHDOG_SECS}),
         Some(Err(_)) => json!({"k": "panic", "msg": run::last_panic()}),
